@@ -16,6 +16,7 @@
 -/
 import PolyVerif.Model.Tree
 import PolyVerif.Gen.Render
+import PolyVerif.Lemmas.Bvh
 
 namespace PolyVerif
 namespace Tree
@@ -49,7 +50,7 @@ theorem slabFold_eq_gen (b : AABB α) (o d : V3 α) (mn mx : α) :
     slabFold genEps b o d mn mx = AABB.IntersectsRayInRange b ⟨o, d⟩ mn mx := by
   unfold slabFold AABB.IntersectsRayInRange
   simp only [slabArith_eq_gen b, genEps, V3.X, V3.Y, V3.Z]
-  first | rfl | (repeat' split) <;> simp_all
+  rfl
 
 /-- the hand model of the whole test is the composition with `kEps` when no direction component is zero -/
 theorem intersectsRayInRange_eq_slabFold (b : AABB α) (o d : V3 α) (mn mx : α)
@@ -63,6 +64,81 @@ theorem intersectsRayInRange_eq_gen (heps : (genEps : α) = kEps) (b : AABB α) 
     (hx : (d.x == ((0 : Nat) : α)) = false) (hy : (d.y == ((0 : Nat) : α)) = false) (hz : (d.z == ((0 : Nat) : α)) = false) :
     intersectsRayInRange b o d mn mx = AABB.IntersectsRayInRange b ⟨o, d⟩ mn mx := by
   rw [intersectsRayInRange_eq_slabFold b o d mn mx hx hy hz, ← heps, slabFold_eq_gen]
+
+/-! ### the ℝ slab theorems of C16, carried over to the REGENERATED test
+
+Over ℝ the regenerated code widens the box by `genEps` — the exact rational value of the float64 constant `kEpsilon`,
+`7737125245533627 / 2^86` — while the hand model widens by the decimal `kEps = 1/10^10`; `genEps - kEps ≈ 3.6e-27 > 0`.
+Widening box `b` by `genEps` is widening the box `grow epsGap b` (extents + (genEps - kEps)) by `kEps`: so for rays with no zero
+direction component the regenerated test on `b` IS the hand model on `grow epsGap b` (`gen_eq_hand_grow`), `grow` is monotone and
+only grows, and `slab_mono` / `slab_sound` transfer.  RESIDUE (explicit): a zero direction component — there the regenerated
+expression read over ℝ has `1/0 = 0`, not IEEE's `±Inf`; those rays are covered by the hand model's theorems and, at Float, by the
+`c16.aabb.ray` lines on which the driver evaluates both definitions. -/
+
+namespace SlabGen
+open PolyVerif.Tree
+
+noncomputable def epsGap : ℝ := (genEps : ℝ) - kEps
+
+theorem epsGap_pos : 0 < epsGap := by
+  simp only [epsGap, genEps, kEps, RS.lit_eq]; norm_num
+
+/-- the box with every extent enlarged by `δ` -/
+def grow (δ : ℝ) (b : Box) : Box := ⟨b.center, ⟨b.extents.x + δ, b.extents.y + δ, b.extents.z + δ⟩⟩
+
+theorem slabFold_grow (b : Box) (o d : P3) (mn mx : ℝ) :
+    slabFold (genEps : ℝ) b o d mn mx = slabFold kEps (grow epsGap b) o d mn mx := by
+  have h1 : (grow epsGap b).Min.x - kEps = b.Min.x - genEps := by simp [grow, AABB.Min, V3.Sub, epsGap]; ring
+  have h2 : (grow epsGap b).Min.y - kEps = b.Min.y - genEps := by simp [grow, AABB.Min, V3.Sub, epsGap]; ring
+  have h3 : (grow epsGap b).Min.z - kEps = b.Min.z - genEps := by simp [grow, AABB.Min, V3.Sub, epsGap]; ring
+  have h4 : (grow epsGap b).Max.x + kEps = b.Max.x + genEps := by simp [grow, AABB.Max, V3.Add, epsGap]; ring
+  have h5 : (grow epsGap b).Max.y + kEps = b.Max.y + genEps := by simp [grow, AABB.Max, V3.Add, epsGap]; ring
+  have h6 : (grow epsGap b).Max.z + kEps = b.Max.z + genEps := by simp [grow, AABB.Max, V3.Add, epsGap]; ring
+  unfold slabFold
+  simp only [h1, h2, h3, h4, h5, h6]
+
+/-- no zero direction component: the regenerated test on `b` is the hand model on `grow epsGap b` -/
+theorem gen_eq_hand_grow (b : Box) (o d : P3) (mn mx : ℝ) (hx : d.x ≠ 0) (hy : d.y ≠ 0) (hz : d.z ≠ 0) :
+    AABB.IntersectsRayInRange b ⟨o, d⟩ mn mx = intersectsRayInRange (grow epsGap b) o d mn mx := by
+  rw [← slabFold_eq_gen, slabFold_grow,
+    ← intersectsRayInRange_eq_slabFold _ _ _ _ _ (by simp [hx]) (by simp [hy]) (by simp [hz])]
+
+theorem boxSub_grow {a b : Box} (h : BoxSub a b) {δ : ℝ} (hδ : 0 ≤ δ) : BoxSub (grow δ a) (grow δ b) := by
+  obtain ⟨h1, h2⟩ := h
+  rw [aabb_contains_iff] at h1 h2
+  constructor <;> rw [aabb_contains_iff] <;>
+    simp only [grow, AABB.Min, AABB.Max, V3.Sub, V3.Add] at * <;>
+    (refine ⟨?_, ?_, ?_, ?_, ?_, ?_⟩ <;> linarith [h1.1, h1.2.1, h1.2.2.1, h1.2.2.2.1, h1.2.2.2.2.1, h1.2.2.2.2.2,
+      h2.1, h2.2.1, h2.2.2.1, h2.2.2.2.1, h2.2.2.2.2.1, h2.2.2.2.2.2])
+
+theorem contains_grow (a : Box) (v : P3) {δ : ℝ} (hδ : 0 ≤ δ) (h : a.Contains v = true) : (grow δ a).Contains v = true := by
+  rw [aabb_contains_iff] at *
+  simp only [grow, AABB.Min, AABB.Max, V3.Sub, V3.Add] at *
+  obtain ⟨h1, h2, h3, h4, h5, h6⟩ := h
+  refine ⟨?_, ?_, ?_, ?_, ?_, ?_⟩ <;> linarith
+
+/-- `slab_mono` for the regenerated `IntersectsRayInRange` (rays without a zero direction component) -/
+theorem slab_mono_gen {a b : Box} (h : BoxSub a b) (o d : P3) (mn mx : ℝ) (hx : d.x ≠ 0) (hy : d.y ≠ 0) (hz : d.z ≠ 0)
+    (ha : AABB.IntersectsRayInRange a ⟨o, d⟩ mn mx = true) : AABB.IntersectsRayInRange b ⟨o, d⟩ mn mx = true := by
+  rw [gen_eq_hand_grow _ _ _ _ _ hx hy hz] at *
+  exact Tree.slab_mono (boxSub_grow h (le_of_lt epsGap_pos)) o d mn mx ha
+
+/-- `slab_sound` for the regenerated `IntersectsRayInRange`: a ray (no zero direction component) that is inside box `a` at some
+    parameter of a non-empty range is accepted by the regenerated test for every box containing `a` -/
+theorem slab_sound_gen (a b : Box) (hab : BoxSub a b) (o d : P3) (mn mx t : ℝ) (hx : d.x ≠ 0) (hy : d.y ≠ 0) (hz : d.z ≠ 0)
+    (hr : mn < mx) (h1 : mn ≤ t) (h2 : t ≤ mx) (hin : a.Contains (o.Add (d.Scale t)) = true) :
+    AABB.IntersectsRayInRange b ⟨o, d⟩ mn mx = true := by
+  rw [gen_eq_hand_grow _ _ _ _ _ hx hy hz]
+  exact Tree.slab_mono (boxSub_grow hab (le_of_lt epsGap_pos)) o d mn mx
+    (slab_sound_aux _ o d mn mx t hr h1 h2 (contains_grow a _ (le_of_lt epsGap_pos) hin))
+
+/-- non-vacuity: a diagonal ray through the unit box is accepted by the regenerated test -/
+example : AABB.IntersectsRayInRange (⟨⟨0, 0, 0⟩, ⟨1, 1, 1⟩⟩ : Box) ⟨⟨-3, -3, -3⟩, ⟨1, 1, 1⟩⟩ 0 100 = true := by
+  refine slab_sound_gen ⟨⟨0, 0, 0⟩, ⟨1, 1, 1⟩⟩ _ ⟨?_, ?_⟩ _ _ 0 100 3 (by norm_num) (by norm_num) (by norm_num)
+    (by norm_num) (by norm_num) (by norm_num) ?_ <;>
+  · rw [aabb_contains_iff]; norm_num [AABB.Min, AABB.Max, V3.Sub, V3.Add, V3.Scale]
+
+end SlabGen
 
 end Tree
 end PolyVerif
